@@ -48,6 +48,7 @@ import (
 	meshconfig "istio.io/api/mesh/v1alpha1"
 	networking "istio.io/api/networking/v1alpha3"
 	securityv1 "istio.io/api/security/v1beta1"
+	"istio.io/istio/pilot/pkg/config/kube/crd"
 	"istio.io/istio/pilot/pkg/model"
 	pxds "istio.io/istio/pilot/pkg/xds"
 	v3 "istio.io/istio/pilot/pkg/xds/v3"
@@ -56,6 +57,7 @@ import (
 	"istio.io/istio/pkg/config/mesh/meshwatcher"
 	"istio.io/istio/pkg/config/schema/gvk"
 	"istio.io/istio/pkg/config/schema/kind"
+	"istio.io/istio/pkg/spiffe"
 	"istio.io/istio/pkg/util/sets"
 	"verifharness/internal/wire"
 )
@@ -117,7 +119,7 @@ func newWritersWorld(variant int) *writersWorld {
 var shortType = map[string]string{"cds": v3.ClusterType, "eds": v3.EndpointType, "rds": v3.RouteType, "sds": v3.SecretType}
 
 var sdsNames = []string{"kubernetes://tls-a", "kubernetes://tls-a-cacert", "kubernetes://ns-b/tls-a", "kubernetes://default/tls-a", "kubernetes://missing",
-	"kubernetes://tls-b", "kubernetes://tls-b-cacert"}
+	"kubernetes://tls-b", "kubernetes://tls-b-cacert", "configmap://default/ca-cm-cacert", "kubernetes-gateway://default/tls-a"}
 
 func (w *keysWorld) resourceNames(p *model.Proxy, typ string) []string {
 	switch typ {
@@ -138,12 +140,59 @@ var cfgHome = map[string]struct {
 }{
 	"dr-a": {gvk.DestinationRule, "default"}, "dr-b": {gvk.DestinationRule, "ns-b"}, "dr-a-nsb": {gvk.DestinationRule, "ns-b"},
 	"dr-sel": {gvk.DestinationRule, "default"}, "dr-dns": {gvk.DestinationRule, "default"},
+	"dr-hash": {gvk.DestinationRule, "default"}, "dr-tls": {gvk.DestinationRule, "default"}, "dr-new": {gvk.DestinationRule, "default"},
+	"vs-new": {gvk.VirtualService, "default"}, "ef-new": {gvk.EnvoyFilter, "default"},
 	"vs-a": {gvk.VirtualService, "default"}, "vs-b": {gvk.VirtualService, "ns-b"}, "vs-c-src": {gvk.VirtualService, "default"},
 	"sc-b": {gvk.Sidecar, "ns-b"}, "sc-reg": {gvk.Sidecar, "default"}, "sc-labelled": {gvk.Sidecar, "default"},
 	"ef-labels": {gvk.EnvoyFilter, "default"}, "ef-version": {gvk.EnvoyFilter, "istio-system"},
 	"se-a": {gvk.ServiceEntry, "default"}, "se-b": {gvk.ServiceEntry, "ns-b"}, "se-c": {gvk.ServiceEntry, "default"},
 	"se-dns":     {gvk.ServiceEntry, "default"},
 	"pa-default": {gvk.PeerAuthentication, "istio-system"}, "pa-nsb": {gvk.PeerAuthentication, "ns-b"},
+}
+
+// configs that do not exist in the mesh: the first `toggle` CREATES them (a new name enters keys and dependency lists)
+const cfgTemplates = `
+apiVersion: networking.istio.io/v1
+kind: VirtualService
+metadata: {name: vs-new, namespace: default}
+spec:
+  hosts: [tls.example.com]
+  http:
+  - route: [{destination: {host: tls.example.com}}]
+    timeout: 6s
+---
+apiVersion: networking.istio.io/v1
+kind: DestinationRule
+metadata: {name: dr-new, namespace: default}
+spec:
+  host: b.example.com
+  exportTo: ["."]
+  trafficPolicy:
+    connectionPool: {tcp: {maxConnections: 17}}
+---
+apiVersion: networking.istio.io/v1alpha3
+kind: EnvoyFilter
+metadata: {name: ef-new, namespace: default}
+spec:
+  configPatches:
+  - applyTo: CLUSTER
+    match: {context: SIDECAR_OUTBOUND}
+    patch:
+      operation: MERGE
+      value: {connect_timeout: 13s}
+`
+
+func templateFor(name string) (config.Config, bool) {
+	cfgs, _, err := crd.ParseInputs(cfgTemplates)
+	if err != nil {
+		panic(err)
+	}
+	for _, c := range cfgs {
+		if c.Name == name {
+			return c, true
+		}
+	}
+	return config.Config{}, false
 }
 
 var secretTargets = map[string][2]string{
@@ -165,11 +214,38 @@ func kindOf(g config.GroupVersionKind) kind.Kind { return kind.FromString(g.Kind
 // changeConfig rewrites one knob of a config of the mesh. ok=false: the world does not have it (any more).
 func (w *writersWorld) changeConfig(which string, n int) (model.ConfigKey, bool) {
 	store := w.s.Store()
+	if which == "configmap" {
+		cl := w.sdsClients["Kubernetes"]
+		cm, err := cl.Kube().CoreV1().ConfigMaps("default").Get(context.Background(), "ca-cm", metav1.GetOptions{})
+		if err != nil {
+			panic(err)
+		}
+		cm = cm.DeepCopy()
+		cm.Data["ca.crt"] = fmt.Sprintf("ca-from-configmap-%d", n)
+		if _, err := cl.Kube().CoreV1().ConfigMaps("default").Update(context.Background(), cm, metav1.UpdateOptions{}); err != nil {
+			panic(err)
+		}
+		return model.ConfigKey{Kind: kind.ConfigMap, Name: "ca-cm", Namespace: "default"}, true
+	}
+	if which == "secret-toggle" { // delete / re-create the Secret default/tls-b
+		cl := w.sdsClients["Kubernetes"].Kube().CoreV1().Secrets("default")
+		if _, err := cl.Get(context.Background(), "tls-b", metav1.GetOptions{}); err == nil {
+			if err := cl.Delete(context.Background(), "tls-b", metav1.DeleteOptions{}); err != nil {
+				panic(err)
+			}
+		} else {
+			sec := mkSecret("default", "tls-b", map[string]string{"tls.crt": fmt.Sprintf("cert-b-%d", n), "tls.key": "key-b", "ca.crt": fmt.Sprintf("ca-b-%d", n)})
+			if _, err := cl.Create(context.Background(), sec, metav1.CreateOptions{}); err != nil {
+				panic(err)
+			}
+		}
+		return model.ConfigKey{Kind: kind.Secret, Name: "tls-b", Namespace: "default"}, true
+	}
 	if sec, ok := secretTargets[which]; ok {
 		cl := w.sdsClients["Kubernetes"]
 		cur, err := cl.Kube().CoreV1().Secrets(sec[0]).Get(context.Background(), sec[1], metav1.GetOptions{})
 		if err != nil {
-			panic(err)
+			return model.ConfigKey{}, false // currently deleted by secret-toggle
 		}
 		cur = cur.DeepCopy()
 		for k := range cur.Data { // every field, including ca.crt / cacert (the compound `-cacert` relation)
@@ -186,6 +262,8 @@ func (w *writersWorld) changeConfig(which string, n int) (model.ConfigKey, bool)
 		base = "se-a"
 	case "se-c-addr":
 		base = "se-c"
+	case "dr-a-subset":
+		base = "dr-a"
 	case "se-dns-ep", "se-dns-res", "se-dns-san":
 		base = "se-dns"
 	case "se-b-ep":
@@ -206,7 +284,26 @@ func (w *writersWorld) changeConfig(which string, n int) (model.ConfigKey, bool)
 		if spec.TrafficPolicy == nil {
 			spec.TrafficPolicy = &networking.TrafficPolicy{}
 		}
-		spec.TrafficPolicy.ConnectionPool = &networking.ConnectionPoolSettings{Tcp: &networking.ConnectionPoolSettings_TCPSettings{MaxConnections: int32(100 + n)}}
+		switch which {
+		case "dr-hash": // the hash policy of the ROUTES of hb.example.com comes from this DestinationRule
+			spec.TrafficPolicy.LoadBalancer = &networking.LoadBalancerSettings{LbPolicy: &networking.LoadBalancerSettings_ConsistentHash{
+				ConsistentHash: &networking.LoadBalancerSettings_ConsistentHashLB{
+					HashKey: &networking.LoadBalancerSettings_ConsistentHashLB_HttpHeaderName{HttpHeaderName: fmt.Sprintf("x-user-%d", n)},
+				},
+			}}
+		case "dr-a-subset": // the ENDPOINTS of the subset clusters of a.example.com are selected by these labels
+			for _, ss := range spec.Subsets {
+				if ss.Name == "v1" {
+					if ss.Labels["version"] == "v1" {
+						ss.Labels = map[string]string{"version": "v2"}
+					} else {
+						ss.Labels = map[string]string{"version": "v1"}
+					}
+				}
+			}
+		default:
+			spec.TrafficPolicy.ConnectionPool = &networking.ConnectionPoolSettings{Tcp: &networking.ConnectionPoolSettings_TCPSettings{MaxConnections: int32(100 + n)}}
+		}
 	case *networking.VirtualService:
 		for _, h := range spec.Http {
 			h.Retries = &networking.HTTPRetry{Attempts: int32(3 + n%5)} // (the default policy has 2 attempts)
@@ -279,6 +376,12 @@ func (w *writersWorld) toggleConfig(which string) (model.ConfigKey, bool) {
 	}
 	cur := store.Get(home.gvk, cfgName(which), home.ns)
 	if cur == nil {
+		if tmpl, ok := templateFor(which); ok {
+			if _, err := store.Create(tmpl); err != nil {
+				panic(err)
+			}
+			return key, true
+		}
 		return model.ConfigKey{}, false
 	}
 	w.deleted[which] = cur.DeepCopy()
@@ -320,7 +423,7 @@ func (w *writersWorld) waitQuiet(before int64) {
 // flushEp issues the ConfigUpdate the registries send after an endpoint index update (as DiscoveryServer.EDSUpdate does)
 // for every endpoint op since the last call, through the real ConfigUpdate -> debounce -> Push, and waits for it.
 func (w *writersWorld) flushEp() {
-	if len(w.pendingEp) == 0 {
+	if len(w.pendingEp) == 0 && !w.pendingForced {
 		return
 	}
 	keys := w.pendingEp
@@ -411,8 +514,17 @@ func (w *writersWorld) epOp(op, svc string, n int) {
 	}
 	idx := w.s.Discovery.Env.EndpointIndex
 	// the registry's ConfigUpdate for this service follows the index update; the harness delays it to the next
-	// config-changing or push op (flushEp), so that a `check` in between sees the window
-	w.pendingEp = append(w.pendingEp, model.ConfigKey{Kind: kind.ServiceEntry, Name: hn[0], Namespace: hn[1]})
+	// config-changing or push op (flushEp), so that a `check` in between sees the window. As DiscoveryServer.EDSUpdate:
+	// kind Endpoints for an incremental push, kind ServiceEntry for a full push; the ServiceEntry controller adds a
+	// ServiceEntry-kind update for DNS-resolution services (their endpoints are inline in the CDS cluster).
+	note := func(pt model.PushType) {
+		switch {
+		case pt == model.FullPush || svc == "dns":
+			w.pendingEp = append(w.pendingEp, model.ConfigKey{Kind: kind.ServiceEntry, Name: hn[0], Namespace: hn[1]})
+		case pt == model.IncrementalPush:
+			w.pendingEp = append(w.pendingEp, model.ConfigKey{Kind: kind.Endpoints, Name: hn[0], Namespace: hn[1]})
+		}
+	}
 	fresh := func() []*model.IstioEndpoint {
 		var eps []*model.IstioEndpoint
 		for _, e := range sh.eps {
@@ -424,18 +536,24 @@ func (w *writersWorld) epOp(op, svc string, n int) {
 	switch op {
 	case "epupdate":
 		if n%4 == 0 {
-			idx.UpdateServiceEndpoints(sh.key, hn[0], hn[1], nil, false)
+			note(idx.UpdateServiceEndpoints(sh.key, hn[0], hn[1], nil, false))
 		} else {
-			idx.UpdateServiceEndpoints(sh.key, hn[0], hn[1], fresh(), false)
+			note(idx.UpdateServiceEndpoints(sh.key, hn[0], hn[1], fresh(), false))
 		}
-	case "epdelete":
+	case "epdelete": // SvcUpdate(EventDelete): the service is gone, a full push follows
 		idx.DeleteServiceShard(sh.key, hn[0], hn[1], false)
+		note(model.FullPush)
 	case "epnew":
-		idx.UpdateServiceEndpoints(sh.key, hn[0], hn[1], fresh(), false)
+		note(idx.UpdateServiceEndpoints(sh.key, hn[0], hn[1], fresh(), false))
+	case "epprune": // kube controller resync: PruneShard keeps only the listed services of the shard
+		idx.PruneShard(sh.key, map[string]sets.String{})
+		w.pendingForced = true
+		note(model.FullPush)
 	case "epdelshard":
 		// a registry (cluster) is removed: kube multicluster calls DeleteShard and then a FORCED ConfigUpdate
 		idx.DeleteShard(sh.key)
 		w.pendingForced = true
+		note(model.FullPush)
 	}
 }
 
@@ -474,21 +592,38 @@ func (w *writersWorld) meshChange(n int, alone bool) {
 	w.pushReq(forced.CopyMerge(&model.PushRequest{ConfigsUpdated: sets.New(key), Reason: model.NewReasonStats(model.ConfigUpdate)}))
 }
 
+// reader builds a proxy that is about to be served for the first time, the way the server does (real initConnection
+// when the hook has it), so that it computes the same keys as the connections' writers.
+func (w *writersWorld) reader(a pattrs, id string) *model.Proxy {
+	if extAvailable {
+		if _, p, err := extConnect(w.s.Discovery, nodeOf(a, id), false); err == nil {
+			p.VerifiedIdentity = &spiffe.Identity{TrustDomain: "cluster.local", Namespace: a.ns, ServiceAccount: "sa-client"}
+			return p
+		}
+	}
+	return w.proxy(a, id)
+}
+
 func (w *writersWorld) apply(f []string) string {
 	s := w.s
 	switch {
 	case f[0] == "connect" && (len(f) == 3 || len(f) == 4):
 		bv, _ := strconv.Atoi(f[2])
 		a := basePattrs(bv)
-		p := w.proxy(a, f[1])
-		p.LastPushContext = s.PushContext()
-		p.WatchedResources = map[string]*model.WatchedResource{}
-		c := &wconn{attrs: a, p: p, delta: len(f) == 4 && f[3] == "delta", subs: map[string]int{}}
-		c.delta = c.delta && extAvailable
-		if c.delta {
-			c.con = extNewDeltaConn(p)
+		c := &wconn{attrs: a, delta: len(f) == 4 && f[3] == "delta" && extAvailable, subs: map[string]int{}}
+		if extAvailable {
+			// the REAL initConnection: initProxyMetadata from the xDS Node, LastPushContext, addCon, initializeProxy
+			con, p, err := extConnect(s.Discovery, nodeOf(a, f[1]), c.delta)
+			if err != nil {
+				return "err"
+			}
+			p.VerifiedIdentity = &spiffe.Identity{TrustDomain: "cluster.local", Namespace: a.ns, ServiceAccount: "sa-client"}
+			c.con, c.p = con, p
 		} else {
-			c.con = pxds.VerifC06NewConnection(p, &sinkStream{})
+			p := w.proxy(a, f[1])
+			p.LastPushContext = s.PushContext()
+			p.WatchedResources = map[string]*model.WatchedResource{}
+			c.p, c.con = p, pxds.VerifC06NewConnection(p, &sinkStream{})
 		}
 		w.conns[f[1]] = c
 		return "ok"
@@ -560,7 +695,7 @@ func (w *writersWorld) apply(f []string) string {
 		n, _ := strconv.Atoi(f[2])
 		w.epOp(f[0], f[1], n)
 		return "ok"
-	case (f[0] == "epdelete" || f[0] == "epdelshard") && len(f) == 2:
+	case (f[0] == "epdelete" || f[0] == "epdelshard" || f[0] == "epprune") && len(f) == 2:
 		w.epOp(f[0], f[1], 0)
 		return "ok"
 	case f[0] == "meshchange" && len(f) == 2:
@@ -595,6 +730,33 @@ func (w *writersWorld) apply(f []string) string {
 			return "err"
 		}
 		return "ok"
+	case f[0] == "pushstale" && len(f) == 2:
+		// a push-queue worker took this connection's request BEFORE the latest changes were published and delivers it
+		// only now: a push overtaken by a newer publish (computeProxyState then records the OLD context and its Start)
+		c := w.conns[f[1]]
+		if c == nil {
+			return "bad-op"
+		}
+		req := c.pending
+		c.pending = nil
+		if req == nil {
+			return "ok"
+		}
+		var err error
+		if c.delta {
+			err = extPushDelta(s.Discovery, c.con, req)
+		} else {
+			err = pxds.VerifC06PushConnection(s.Discovery, c.con, req)
+		}
+		if err != nil {
+			return "err"
+		}
+		return "ok"
+	case f[0] == "queue" && len(f) == 1:
+		// StartPush for everything accepted so far: the requests reach the push queue of every connection
+		w.flushEp()
+		w.flushPushes()
+		return "ok"
 	case f[0] == "dump" && len(f) == 2:
 		c := w.conns[f[1]]
 		if c == nil {
@@ -617,13 +779,13 @@ func (w *writersWorld) apply(f []string) string {
 			return "bad-op"
 		}
 		w.nreader++
-		reader := w.proxy(c.attrs, fmt.Sprintf("reader%d", w.nreader))
+		var reader *model.Proxy
 		// Both generations must see ONE snapshot: if the server's asynchronous pipeline publishes a new push context
 		// (a late event of an earlier change) while they run, wait for it to settle and compare again.
 		var warm, cold map[string]proto.Message
 		for try := 0; try < 6; try++ {
 			ctx0, in0 := s.PushContext(), s.Discovery.InboundUpdates.Load()
-			reader = w.proxy(c.attrs, fmt.Sprintf("reader%d.%d", w.nreader, try))
+			reader = w.reader(c.attrs, fmt.Sprintf("reader%d-%d", w.nreader, try))
 			warm = w.generateWith(w.gens, reader)
 			cold = w.generateWith(w.twins, reader)
 			if s.PushContext() == ctx0 && s.Discovery.InboundUpdates.Load() == in0 && s.Discovery.CommittedUpdates.Load() >= in0 {
@@ -647,9 +809,10 @@ func (w *writersWorld) apply(f []string) string {
 }
 
 var changeable = []string{"dr-a", "dr-b", "dr-a-nsb", "dr-sel", "vs-a", "vs-b", "vs-c-src", "se-a-ep", "se-b-ep", "se-a-port", "se-a-addr", "se-c-addr",
-	"se-dns-ep", "se-dns-res", "se-dns-san", "secret-b", "secret-nsb", "secret-cacert",
+	"se-dns-ep", "se-dns-res", "se-dns-san", "secret-b", "secret-nsb", "secret-cacert", "dr-hash", "dr-hash", "dr-a-subset", "dr-a-subset", "dr-tls", "configmap", "secret-toggle",
 	"ef-labels", "ef-version", "pa-default", "pa-nsb", "secret"}
-var toggleable = []string{"dr-a", "dr-b", "dr-sel", "vs-a", "vs-c-src", "sc-b", "sc-reg", "ef-labels", "ef-version", "pa-nsb"}
+var toggleable = []string{"dr-a", "dr-b", "dr-sel", "vs-a", "vs-c-src", "sc-b", "sc-reg", "ef-labels", "ef-version", "pa-nsb",
+	"vs-new", "dr-new", "ef-new", "vs-new", "dr-new", "dr-hash", "dr-tls"}
 
 func genWriters(seed uint64, n int, path string) {
 	out := wire.Create(path)
@@ -710,13 +873,21 @@ func genWriters(seed uint64, n int, path string) {
 				case y < 9:
 					out.Line("epnew", svc, strconv.Itoa(ver))
 				default:
-					out.Line("epdelshard", svc)
+					out.Line(wire.Pick(r, []string{"epdelshard", "epprune"}), svc)
 				}
 				if r.Chance(1, 2) {
 					out.Line("check", id)
 				}
-			case x < 62:
+			case x < 58:
 				out.Line("push", id)
+			case x < 62:
+				// a push overtaken by a newer publish, then a request on the connection
+				ver++
+				out.Line("queue")
+				out.Line("change", wire.Pick(r, changeable), strconv.Itoa(ver))
+				out.Line("pushstale", id)
+				out.Line("request", id, wire.Pick(r, []string{"cds", "rds", "eds"}))
+				out.Line("check", id)
 			case x < 70:
 				out.Line("dump", id)
 			case x < 76:
@@ -830,7 +1001,7 @@ func oracleWriters(opsPath, outPath string) {
 func lastWriter(hist []string) string {
 	for i := len(hist) - 1; i >= 0; i-- {
 		switch hist[i] {
-		case "dump", "dumptypes", "request", "push", "epupdate", "epdelete", "epnew", "epdelshard", "change", "toggle", "meshchange", "forcepush":
+		case "dump", "dumptypes", "request", "push", "pushstale", "epupdate", "epdelete", "epnew", "epdelshard", "epprune", "change", "toggle", "meshchange", "forcepush":
 			return hist[i]
 		}
 	}
